@@ -32,8 +32,11 @@ import contextlib
 import copy
 import datetime
 import itertools
+import json
 import logging
+import os
 import random
+import time
 from typing import Any, Iterator
 
 from .. import leanio
@@ -75,7 +78,13 @@ LEVEL_TEXT = (
     "up only on a finished record (loop_stops_only_when_finished). A stored record is usable whatever the spelling of its "
     "timestamps: without a UTC offset (older releases) it is treated exactly as the same record with +00:00 (naive_is_utc, "
     "stored_is_step, unguarded; C11-F5 fixed by e01f630 — naive_record_never_retried_witness, naive_delayed_raises_forever, "
-    "naive_started_raises are regressions of the variant before the repair, stepStoredRaw). 'A handler' in 'with retries=N a "
+    "naive_started_raises are regressions of the variant before the repair, stepStoredRaw). The LOCAL TIME ZONE of the operator's "
+    "process (TZ, /etc/localtime) plays no role: the instants a stored record denotes, hence the gate, the limits and the whole "
+    "execution on it, are the same in every zone and for every spelling (zone_irrelevant, stored_zone_irrelevant, unguarded; the zone "
+    "is a parameter of the model that the code's reader provably ignores); the variant that reads offset-less timestamps as local time "
+    "(astimezone/timestamp()/default_timezone=local: stepStoredLocal) equals the code in a UTC process and on what kopf writes itself "
+    "(local_step_same_in_utc, local_same_on_aware) and breaks the delay clause east of UTC and the timeout clause west of it "
+    "(local_zone_east_wakes_sleeper, local_zone_west_hides_timeout, two *_witness theorems = the seeded shapes). 'A handler' in 'with retries=N a "
     "handler is invoked at most N times' is ONE REGISTRATION (one decorator with its own limits, bound to its reason) within the "
     "handling of one cause: for one function registered under one id for two reasons the count, the clock and the delay start "
     "anew when the second cause supersedes the first — CONFORMING, and what the code does for top-level handlers since f7d6401 "
@@ -100,7 +109,10 @@ TIE = ("D: bounded-exhaustive grid on the real execute_handler_once / execute_ha
        "process_changing_cause with a real registry (resuming handlers, initial=True; one function registered under one id "
        "for two reasons with the second cause superseding the first: every registration's series against its own model run "
        "from scratch, a stacked parent's sub-handlers as one inherited run), sub-handlers passed to "
-       "kopf.execute() or registered in the parent's body and executed implicitly, the parent failing on its own; the "
+       "kopf.execute() or registered in the parent's body and executed implicitly, the parent failing on its own; the legacy grid and "
+       "40 % of all histories in a process whose local time zone is NOT UTC (TZ + tzset: 7 zones east/west/fractional/extreme/DST; model "
+       "op stepStoredIn with the zone's offset), half of the change/pair/sub histories with the stored records re-spelled between two "
+       "operator processes (no offset = older release, Z, other offsets); the "
        "model is given what the function WOULD still do: a loop that gives up early is a divergence")
 THEOREMS = [("Kopf.Props.C11", "Kopf.C11." + n) for n in [
     # one execution
@@ -130,6 +142,10 @@ THEOREMS = [("Kopf.Props.C11", "Kopf.C11." + n) for n in [
     # variant before the repair (stepStoredRaw)
     "naive_is_utc", "stored_is_step", "raw_aware_is_stored", "naive_record_never_retried_witness",
     "naive_delayed_raises_forever", "naive_started_raises",
+    # the local time zone of the operator's process plays no role (seed C11g: naive timestamps read as local time)
+    "zone_irrelevant", "stored_zone_irrelevant", "local_shifts_naive", "local_same_on_aware", "local_step_same_in_utc",
+    "local_zone_east_wakes_sleeper", "local_zone_retried_too_soon_witness", "local_zone_invoked_after_timeout_witness",
+    "local_zone_west_hides_timeout",
     # stacked registrations (one function, one id, two reasons; f7d6401)
     "namesake_retries_bound_partial", "namesake_starts_from_scratch", "namesake_inherits_refused_witness",
 ]]
@@ -150,11 +166,17 @@ RULE = ("grid: errors mode x default mode x timeout {None,0,10s,70s} x runtime b
         "after 1-4 cycles), 25 % of the sub-handler histories through it as well (70 % under a stacked parent), "
         "sub-handlers explicit or implicit with a parent that fails by itself, "
         "TemporaryError without delay= (the documented 60 s), a legacy grid (1080 points: stored records with TZ-naive / Z / "
-        "offset timestamps; always complete), 30 % long flavour (day-scale times, fractional timeouts), seven driver kinds; a case is distinct & non-trivial when its abstraction (limits "
+        "offset timestamps; always complete) + the zone grid (2520 points: 7 process time zones x naive/partly naive/+02:00 spellings x "
+        "record shapes x ages on both sides of the timeout; always complete), 40 % of the histories of every kind in a non-UTC process "
+        "zone, 50 % of change/pair/sub histories with every progress record on the object re-spelled at each restart (1-3 spellings in "
+        "turn; 60 % of them with an extra restart within the first three cycles = an upgrade in the middle of a retry series), 30 % long flavour (day-scale times, fractional timeouts), seven driver kinds; a case is distinct & non-trivial when its abstraction (limits "
         "class, raised kind, which branch the outcome took, gate) is new and not the plain-success path")
 TRUSTED = [
     "SimLoop virtual time + wall clock shim (harness/sim/simloop.py); times are multiples of 2**-6 s so that "
     "float seconds, microsecond datetimes and ISO strings are exact (rounding of timestamps is never exercised)",
+    "the process time zone is varied with os.environ['TZ'] + time.tzset() inside the check's process (restored after every point / "
+    "history); for the while the wall clock shim's datetime.now() WITHOUT tz= returns the local digits as the real one does "
+    "(simloop's own shim returns UTC digits: faithful only in a UTC process); zones are POSIX TZ strings (no tzdata needed)",
     "the stub handler stands for user code: it raises the scripted exception after sleeping the scripted duration",
     "the closed loop around the change handlers re-implements the 12 lines of process_changing_cause that "
     "call State.from_storage/with_purpose/with_handlers/execute_handlers_once/with_outcomes/store and applies "
@@ -176,6 +198,13 @@ ASSUMPTIONS = [
     "the oracle requires a stored record to be usable whatever the spelling of its timestamps (same instants; a timestamp "
     "without an offset is UTC: what the older releases wrote); an exception escaping on a TZ-naive one is reported under "
     "C11-F5's signature (fixed by e01f630: a violation again), any other escaping exception is a violation",
+    "ambient environment: the property does not mention the process's time zone, so the oracle requires every clause in every "
+    "zone; the re-implemented cycle's oracle takes the record a cycle starts from (started, delayed, count) from the harness's OWN "
+    "reading of the event body (offset-less = UTC), not from the code's HandlerState, so a misreading by the code is judged, not "
+    "inherited (the real-process_changing_cause histories still take it from the code's state: stacked registrations legitimately "
+    "drop records there; their whole-history clauses use observed times only). NOT varied, judged irrelevant to the clauses: locale "
+    "(isoformat/iso8601 do not consult it), PYTHONHASHSEED (outcomes are keyed by handler id in insertion-ordered dicts; cannot be "
+    "changed inside a running process), asyncio debug mode, DST transitions inside a history (the DST zone is used at its winter offset)",
     "'a handler' = one registration: one decorator application with its own errors/retries/timeout/backoff, bound to its "
     "reason, counted within the handling of one cause (the limits belong to the handler object, and two stacked decorators "
     "may give different ones). One function registered under one id for two reasons is two handlers; when the second cause "
@@ -212,6 +241,12 @@ ASSUMPTIONS = [
     "The harness runs pairs under all_at_once and asap; randomized/shuffled are not exercised",
     "'is recorded as failed for good' as an event is proved for the self-driven in-memory loops; for change "
     "handlers it needs a next cycle, which is the environment's (C03's subject)",
+    "a record whose stored spelling differs from kopf's own is RE-STORED (normalised to +00:00) by every cycle that reads it, "
+    "executed or not (State.store: as_in_storage() != _origin); for the current body that is the same record (same instants) and "
+    "the model's idle cycle stays a no-op on the instants. Shown a STALE body, such an idle cycle writes the stale record over a "
+    "newer one (with kopf's own spelling an idle cycle on a stale body writes nothing): an aggravation of the by-design finding "
+    "C11-F2 that the model (runEnv: idle cycles store nothing) does not have; the generator therefore never combines re-spelled "
+    "records with stale/lost/kill steps (observed once as a model/code divergence, no oracle failure)",
     "not modelled: idle-only timers (no interval), callable `initial_delay=`, nested sub-handlers and kopf.execute called twice in one parent call, non-zero "
     "patch_and_check latency in _daemon/_timer (the stub's patch is empty), a cause flipping back (A, B, A again), "
     "more than two registrations under one id",
@@ -268,6 +303,115 @@ def dt_ticks(d: datetime.datetime | None) -> int | None:
 
 def now_ticks() -> int:
     return tk(simloop.WALL.now_s())
+
+
+# =================================================================================================
+# The ambient environment of the operator's process: its local time zone (TZ, /etc/localtime).
+# Nothing in the property mentions it, so nothing observable may depend on it — but Python reads a
+# TZ-naive datetime as LOCAL time wherever it has to place it by itself (astimezone(), timestamp(),
+# now() without tz=), and the stored records of the older releases are naive. The check's own process
+# runs in UTC (as containers and CI do), where local == UTC and such a dependency is invisible.
+# =================================================================================================
+
+UTC = datetime.timezone.utc
+# POSIX TZ strings (sign inverted): east and west of UTC, whole and fractional hours, the extremes, one with DST
+ZONES = ["<+05>-5", "<-05>5", "<+0545>-5:45", "<-0330>3:30", "<+14>-14", "<-12>12", "CET-1CEST,M3.5.0,M10.5.0/3"]
+_ZONE_TICKS: dict[str, int] = {}
+
+
+@contextlib.contextmanager
+def process_zone(tz: str | None) -> Iterator[None]:
+    """Run with the given local time zone of the process (None: leave it as the machine has it). The wall
+    clock shim is made faithful for the while: `datetime.now()` WITHOUT tz= gives the local digits."""
+    if not tz:
+        yield
+        return
+    old = os.environ.get("TZ")
+    shim = simloop._ShimDateTime
+    old_now = shim.__dict__.get("now")
+
+    def now(cls: Any, tz: Any = None) -> datetime.datetime:
+        if tz is not None:
+            return simloop.WALL.now(tz)
+        return simloop.WALL.now(UTC).astimezone().replace(tzinfo=None)
+
+    os.environ["TZ"] = tz
+    time.tzset()
+    shim.now = classmethod(now)    # type: ignore[assignment]
+    try:
+        yield
+    finally:
+        if old_now is not None:
+            shim.now = old_now      # type: ignore[assignment]
+        if old is None:
+            os.environ.pop("TZ", None)
+        else:
+            os.environ["TZ"] = old
+        time.tzset()
+
+
+def zone_ticks(tz: str | None) -> int:
+    """The offset of the zone's local time from UTC (east positive) at the harness' epoch, in ticks."""
+    if not tz:
+        return 0
+    if tz not in _ZONE_TICKS:
+        with process_zone(tz):
+            _ZONE_TICKS[tz] = int(time.localtime(EPOCH.timestamp()).tm_gmtoff) * TPS
+    return _ZONE_TICKS[tz]
+
+
+def respell_ts(v: str, spelling: str, key: str) -> str:
+    """The same instant, spelled differently (a string without an offset is UTC: what the older releases wrote).
+    Never goes through the local time zone of the process."""
+    t = datetime.datetime.fromisoformat(v)
+    t = t.replace(tzinfo=UTC) if t.tzinfo is None else t.astimezone(UTC)
+    base = t.replace(tzinfo=None).isoformat(timespec="microseconds")
+    if spelling == "naive" or spelling == f"naive-{key}":
+        return base
+    if spelling == "Z":
+        return base + "Z"
+    if spelling[0] in "+-" and spelling != "+00:00":
+        hh, mm = int(spelling[1:3]), int(spelling[4:6])
+        off = datetime.timedelta(hours=hh, minutes=mm) * (1 if spelling[0] == "+" else -1)
+        return t.astimezone(datetime.timezone(off)).isoformat(timespec="microseconds")
+    return base + "+00:00"
+
+
+def respell_record(d: dict, spelling: str) -> dict:
+    out = dict(d)
+    for key in ("started", "stopped", "delayed"):
+        if isinstance(out.get(key), str):
+            out[key] = respell_ts(out[key], spelling, key)
+    return out
+
+
+def respell_body(body: dict, spelling: str) -> dict:
+    """Every progress record on the object (annotations and/or status), its timestamps spelled as somebody
+    else would have written them: an older release (no offset), another tool (Z, other offsets)."""
+    body = copy.deepcopy(body)
+    anns = (body.get("metadata") or {}).get("annotations") or {}
+    for k, v in list(anns.items()):
+        try:
+            d = json.loads(v)
+        except (TypeError, ValueError):
+            continue
+        if isinstance(d, dict) and any(x in d for x in ("started", "stopped", "delayed")):
+            anns[k] = json.dumps(respell_record(d, spelling), separators=(",", ":"))
+    progress = ((body.get("status") or {}).get("kopf") or {}).get("progress") or {}
+    for k, d in list(progress.items()):
+        if isinstance(d, dict):
+            progress[k] = respell_record(d, spelling)
+    return body
+
+
+def spelling_offsets(spelling: str) -> list:
+    """The UTC offsets (ticks; None: none at all) of [started, stopped, delayed] under a spelling."""
+    if spelling.startswith("naive"):
+        return [None if spelling in ("naive", f"naive-{k}") else 0 for k in ("started", "stopped", "delayed")]
+    if spelling[0] in "+-":
+        off = (int(spelling[1:3]) * 3600 + int(spelling[4:6]) * 60) * TPS * (1 if spelling[0] == "+" else -1)
+        return [off, off, off]
+    return [0, 0, 0]
 
 
 class K:
@@ -784,26 +928,22 @@ def legacy_points() -> Iterator[dict]:
         yield {"errors": None, "default_errors": "temporary", "timeout": timeout, "runtime": 5 * TPS, "dur": 0,
                "retries": retries, "stored": stored, "x": x, "backoff": D2, "shape": shape,
                "default_backoff": 3 * TPS, "spelling": spelling}
+    # the same in processes whose local time is not UTC: east / west, fractional, extreme, with DST. A record
+    # that sleeps must sleep, one that is due must be executed, one beyond its timeout must be refused, whatever
+    # the zone (ages on both sides of the timeout: a reader that takes the naive digits as local time moves
+    # `started`/`delayed` by the zone's offset — hours — in either direction)
+    for zone, spelling, shape, timeout, (retries, stored), x in itertools.product(
+            ZONES, ["naive", "naive-started", "naive-delayed", "+02:00"], ["fresh", "past", "now", "future", "success"],
+            [None, T10], [(None, 1), (4, 1)], [["ok"], ["temporary", D2], ["arbitrary"]]):
+        for runtime in ([5 * TPS] if timeout is None else [5 * TPS, timeout + 3 * TPS]):
+            yield {"errors": None, "default_errors": "temporary", "timeout": timeout, "runtime": runtime, "dur": 0,
+                   "retries": retries, "stored": stored, "x": x, "backoff": D2, "shape": shape,
+                   "default_backoff": 3 * TPS, "spelling": spelling, "zone": zone}
 
 
 def respell(d: dict, spelling: str) -> dict:
     """The same record (as `as_in_storage()` gives it), its timestamps spelled differently."""
-    out = dict(d)
-    for key in ("started", "stopped", "delayed"):
-        v = out.get(key)
-        if v is None:
-            continue
-        assert v.endswith("+00:00"), v
-        t = datetime.datetime.fromisoformat(v)
-        if spelling == "naive" or spelling == f"naive-{key}":
-            out[key] = v[:-6]
-        elif spelling == "Z":
-            out[key] = v[:-6] + "Z"
-        elif spelling[0] in "+-" :
-            hh, mm = int(spelling[1:3]), int(spelling[4:6])
-            off = datetime.timedelta(hours=hh, minutes=mm) * (1 if spelling[0] == "+" else -1)
-            out[key] = t.astimezone(datetime.timezone(off)).isoformat(timespec="microseconds")
-    return out
+    return respell_record(d, spelling)
 
 
 def point_limits(p: dict) -> dict:
@@ -815,10 +955,16 @@ def point_key(p: dict, res: dict) -> str:
     return leanio.canon([p["errors"], p["default_errors"], p["timeout"] is None, p["timeout"] == 0, p["retries"],
                          p["stored"], p["x"][0], str(p["x"][1]) if len(p["x"]) > 1 else None, p["backoff"], p["shape"],
                          res.get("awake"), out.get("invoked"), out.get("final"), out.get("exc"), out.get("delay") is None,
-                         (p["runtime"] + p["dur"]) >= (p["timeout"] or 0), p.get("spelling")])
+                         (p["runtime"] + p["dur"]) >= (p["timeout"] or 0), p.get("spelling"), p.get("zone")])
 
 
 async def eval_point(p: dict, via_batch: bool, settings_cache: dict) -> dict:
+    """Run one grid point on the real code, in a process with the point's local time zone."""
+    with process_zone(p.get("zone")):
+        return await _eval_point(p, via_batch, settings_cache)
+
+
+async def _eval_point(p: dict, via_batch: bool, settings_cache: dict) -> dict:
     """Run one grid point on the real code; returns {"rec0", "now", "awake", "out", "end", "rec", "invoked"}."""
     settings = settings_cache.get(p["default_backoff"])
     if settings is None:
@@ -897,6 +1043,9 @@ async def eval_point(p: dict, via_batch: bool, settings_cache: dict) -> dict:
 
 
 def point_request(p: dict, res: dict) -> list:
+    if p.get("zone"):
+        return ["C11.stepStoredIn", zone_ticks(p["zone"]), env_json(p["default_errors"], p["default_backoff"]),
+                lim_json(point_limits(p)), res["rec0"], spelling_offsets(p["spelling"]), res["now"], p["dur"], norm_x(p["x"])]
     if p.get("spelling"):
         sp = p["spelling"]
         return ["C11.stepStored", env_json(p["default_errors"], p["default_backoff"]), lim_json(point_limits(p)),
@@ -945,7 +1094,8 @@ def oracle_point(ctx: Ctx, p: dict, res: dict, via: str) -> bool:
         if res["invoked"] and res["retry_kwarg"] != rec0["retries"]:
             bad.append(("retry-kwarg", f"retry kwarg {res['retry_kwarg']} != stored retries {rec0['retries']}"))
     for shape, msg in bad:
-        ctx.oracle_fail(f"grid point ({via}): {msg}", {"part": "grid", "point": p, "via": via, "impl": point_impl(res)},
+        where = f"{via}, process TZ={p['zone']}, stored timestamps spelled '{p['spelling']}'" if p.get("zone") else via
+        ctx.oracle_fail(f"grid point ({where}): {msg}", {"part": "grid", "point": p, "via": via, "impl": point_impl(res)},
                         signature(shape, "execute_handler_once" if via == "direct" else "execute_handlers_once"))
     return not bad
 
@@ -967,6 +1117,8 @@ async def run_grid(ctx: Ctx, points: list[dict], use_model: bool = True) -> None
             ctx.count("grid.branch", (f"awake={res['awake']}" if res["awake"] is not True else
                                       f"invoked={out['invoked']} final={out['final']} exc={out['exc']}"))
             ctx.count("grid.via", via)
+            if p.get("spelling"):
+                ctx.count("grid.zone", f"{p.get('zone') or 'UTC'} (local = UTC{zone_ticks(p.get('zone')) / TPS / 3600:+g} h)")
             reqs.append(point_request(p, res))
             impls.append(point_impl(res))
             inputs.append({"part": "grid", "point": p, "via": via})
@@ -1093,6 +1245,29 @@ def gen_plan(rng: random.Random, n: int = 12, long: bool = False) -> list:
 
 
 def gen_history(rng: random.Random, kind: str | None = None) -> dict:
+    h = gen_history_plain(rng, kind)
+    gen_ambient(rng, h)
+    return h
+
+
+def gen_ambient(rng: random.Random, h: dict) -> None:
+    """What surrounds the operator and is none of the property's business: the local time zone of its process
+    (every kind of history), and — where records outlive a process: change handlers, pairs, sub-handlers — who
+    wrote the stored records the next process finds: an older release (timestamps without an offset), another
+    tool (Z, other offsets). An upgrade in the middle of a retry series is made likely."""
+    if rng.random() < 0.4:
+        h["zone"] = rng.choice(ZONES)
+    if "plan" in h and not h.get("env") and rng.random() < 0.5:
+        # (not together with stale event bodies: see ASSUMPTIONS, "re-stored by every cycle")
+        h["respell"] = [rng.choice(["naive", "naive", "naive", "naive-started", "naive-delayed", "Z", "+02:00", "-07:30", "+00:00"])
+                        for _ in range(rng.choice([1, 1, 2, 3]))]
+        if rng.random() < 0.6:
+            long = h.get("flavour") == "long"
+            down = rng.choice([0, 1, 64, 640, 6400] + ([3600 * 64, 86400 * 64] if long else []))
+            h["plan"].insert(rng.choice([0, 0, 1, 2]), ["restart", down])
+
+
+def gen_history_plain(rng: random.Random, kind: str | None = None) -> dict:
     kind = kind or rng.choice(["change"] * 5 + ["pair"] * 2 + ["sub"] * 2 + ["activity", "daemon", "timer", "timer", "respawn"])
     long = rng.random() < 0.3
     if long:
@@ -1325,7 +1500,8 @@ class ChangeWorld:
             pre = {h.id: len(world.scripts[h.id].calls) for h in world.subs}
             body = K.bodies.Body(world.view_body)
             st0 = K.progression.State.from_storage(body=body, storage=world.storage, handlers=world.subs)
-            known = {h.id: (rec_of_state(st0[h.id]) if h.id in st0 else None) for h in world.subs}
+            known = {h.id: ((world.fetch(h.id, world.view_body) or rec_of_state(st0[h.id])) if h.id in st0 else None)
+                     for h in world.subs}
             world.pending_sub = {"t": call["t"], "pre": pre, "known": known, "pi": len(script.calls) - 1, "call": call}
             if world.implicit:
                 registry = K.subhandling.subregistry_var.get()
@@ -1472,6 +1648,9 @@ class ChangeWorld:
         state = state.with_purpose(reason).with_handlers(self.top)
         pre = {h.id: len(self.scripts[h.id].calls) for h in self.top}
         before = {h.id: rec_of_state(state[h.id]) for h in self.top}
+        # what the record in the event body SAYS is read by the harness itself (its `started`, `delayed`, count are
+        # what the oracle judges the cycle against); the code's own reading only where there is no record yet
+        before = {hid: self.fetch(hid, self.view_body) or b for hid, b in before.items()}
         awake = {h.id: bool(state[h.id].awakened) for h in self.top}
         fresh = {h.id: self.fetch(h.id, self.view_body) is None for h in self.top}
         peeks = {h.id: self.scripts[h.id].peek() for h in self.top}
@@ -1593,6 +1772,13 @@ class ChangeWorld:
         self.subcycles.clear()
         return wrote
 
+    def respell(self, spelling: str) -> None:
+        """Between two operator processes: the records on the object are as somebody else spelled them (the operator
+        was upgraded from a release that wrote no offsets; another tool rewrote the annotations). Same instants."""
+        self.body = respell_body(self.body, spelling)
+        if not self.proc and self.versions:
+            self.versions[-1] = (copy.deepcopy(self.body), self.versions[-1][1])
+
     def stored_message(self, hid: str, body: dict | None = None) -> str:
         got = self.storage.fetch(key=hid, body=K.bodies.Body(self.body if body is None else body))
         return str((got or {}).get("message") or "")
@@ -1649,6 +1835,9 @@ def run_change_history(hist: dict) -> dict:
                 state["restart"] = None
                 if world.proc:
                     world.memory = None
+                spellings = hist.get("respell") or []
+                if spellings:
+                    world.respell(spellings[(len(loops) - 1) % len(spellings)])
                 t = tk(simloop.WALL.base + loop.vtime)
                 for evs in world.events.values():
                     evs.append({"ev": "restarted", "time": t})
@@ -2017,7 +2206,8 @@ def history_checks(hist: dict) -> list[dict]:
     env = env_json("temporary", db)
     checks = []
     try:
-        return _history_checks(hist, kind, db, env)
+        with process_zone(hist.get("zone")):
+            return _history_checks(hist, kind, db, env)
     except Escaped as e:
         return [{"hid": "*", "limits": {}, "events": [], "request": None, "impl": None,
                  "oracle": [("escaped-exception", f"a handler error escaped instead of becoming an outcome: {e}")]}]
@@ -2291,7 +2481,8 @@ def history_key(hist: dict, chk: dict) -> str:
             shape.append([e["x"][0], e["out"]["invoked"], e["out"]["final"], e["out"]["exc"]])
         else:
             shape.append(e["ev"])
-    return leanio.canon([hist["kind"], l.get("errors"), l.get("timeout") is None, l.get("retries"), l.get("backoff") is None, shape])
+    return leanio.canon([hist["kind"], l.get("errors"), l.get("timeout") is None, l.get("retries"), l.get("backoff") is None, shape,
+                         bool(hist.get("zone")), bool(hist.get("respell"))])
 
 
 def run_histories(ctx: Ctx, hists: list[dict], use_model: bool = True) -> None:
@@ -2304,6 +2495,9 @@ def run_histories(ctx: Ctx, hists: list[dict], use_model: bool = True) -> None:
             continue
         ctx.count("history.kind", hist["kind"])
         ctx.count("history.flavour", hist.get("flavour", "corpus"))
+        ctx.count("history.zone", hist.get("zone") or "as the machine is (UTC)")
+        if "plan" in hist:
+            ctx.count("history.records_at_restart", "respelled: " + ",".join(hist["respell"]) if hist.get("respell") else "as kopf wrote them")
         ctx.count("history.lifecycle", hist.get("lifecycle", "all_at_once") if hist["kind"] in ("change", "pair", "sub") else "n/a")
         if hist["kind"] in ("change", "pair", "sub"):
             st = hist.get("stacked")
@@ -2333,7 +2527,9 @@ def run_histories(ctx: Ctx, hists: list[dict], use_model: bool = True) -> None:
                 if shape in seen:
                     continue
                 seen.add(shape)
-                ctx.oracle_fail(f"history ({hist['kind']}, handler {chk['hid']}): {msg}",
+                amb = (f", process TZ={hist['zone']}" if hist.get("zone") else "") + \
+                      (f", stored timestamps respelled at restarts: {'/'.join(hist['respell'])}" if hist.get("respell") else "")
+                ctx.oracle_fail(f"history ({hist['kind']}, handler {chk['hid']}{amb}): {msg}",
                                 {"part": "history", "hist": hist, "handler": chk["hid"], "events": chk["impl"]},
                                 signature(shape, hist["kind"]))
             if chk.get("tie"):
